@@ -6,7 +6,7 @@
 //! repeated, and writes after the end.
 
 use crate::ctx::{set_observed, Ctx, R};
-use crate::drive::{body_bytes, err_name, hex_len, reach_sender, SendFraming, Sender};
+use crate::drive::{body_bytes, err_name, hex_len, reach_sender, reach_sender_ex, SendFraming, Sender};
 use crate::refs::dechunk_strict;
 use crate::{ensure, fail};
 
@@ -68,7 +68,8 @@ fn setup_chunked(ctx: &mut Ctx) -> R<(Sender, &'static str)> {
         }
     };
     let framing = if explicit { SendFraming::ExplicitChunked } else { SendFraming::DefaultChunked };
-    let (s, _head) = match reach_sender(ctx, framing, use_call, method, despite) {
+    let via_added = explicit && !use_call && ctx.flip();
+    let (s, _head) = match reach_sender_ex(ctx, framing, use_call, method, despite, via_added) {
         Ok(v) => v,
         Err(e) => fail!("FOREIGN", "", "cannot reach the body state: {}", e),
     };
@@ -265,12 +266,17 @@ pub fn c04(ctx: &mut Ctx) -> R {
     };
     let use_call = ctx.chance(1, 3);
     let method = *ctx.pick(&["POST", "PUT", "PATCH"]);
-    let (mut s, _head) = match reach_sender(ctx, SendFraming::Sized(n), use_call, method, false) {
+    // the length may be declared on the original request or by the caller in the prepare state,
+    // also on a body-less method sent with a body despite the method
+    let via_added = !use_call && ctx.chance(1, 3);
+    let despite = !use_call && ctx.chance(1, 6);
+    let method = if despite { *ctx.pick(&["GET", "DELETE", "OPTIONS"]) } else { method };
+    let (mut s, _head) = match reach_sender_ex(ctx, SendFraming::Sized(n), use_call, method, despite, via_added) {
         Ok(v) => v,
         Err(e) => fail!("FOREIGN", "", "cannot reach the body state: {}", e),
     };
     set_observed(true);
-    ctx.sample(|| format!("content-length {} request body, api={}, method {}", n, if use_call { "Call" } else { "Flow" }, method));
+    ctx.sample(|| format!("content-length {} request body, api={}, method {}{}{}", n, if use_call { "Call" } else { "Flow" }, method, if via_added { ", length declared via header()" } else { "" }, if despite { ", despite method" } else { "" }));
     let seed = ctx.draw(1 << 32);
     let mut remaining = n;
     let mut pos: u64 = 0; // body position = n - remaining
